@@ -104,6 +104,13 @@ func init() {
 		}
 		return nil
 	})
+	// textproto.MIMEHeader has the same representation and the same methods
+	for _, m := range []string{"Set", "Add", "Get", "Values", "Del"} {
+		externals["(net/textproto.MIMEHeader)."+m] = externals["(net/http.Header)."+m]
+	}
+	ext("net/textproto.CanonicalMIMEHeaderKey", func(fr *frame, args []value) value {
+		return hkey(fr, args[0])
+	})
 	ext("net/http.StatusText", func(fr *frame, args []value) value {
 		return http.StatusText(int(concInt(fr, args[0], "status code")))
 	})
@@ -243,7 +250,8 @@ func (r *Run) ufRecord(name string, in, out []value) {
 
 // ufBytes applies an uninterpreted byte-string function: fresh symbolic output
 // bytes, constrained to equal the output of every earlier application to an
-// equal input (Ackermann expansion). Nothing else is assumed about the function.
+// equal input (Ackermann expansion) and to differ from the output of every earlier application
+// to a different input (injectivity / collision-freedom). Nothing else is assumed.
 func (r *Run) ufBytes(name string, in []value, outLen int) []value {
 	if r.ufCalls == nil {
 		r.ufCalls = map[string][]ufCall{}
@@ -253,10 +261,19 @@ func (r *Run) ufBytes(name string, in []value, outLen int) []value {
 		out[k] = &Sym{T: r.fresh("$"+name, 8), Kind: types.Uint8}
 	}
 	for _, c := range r.ufCalls[name] {
+		// different inputs give different outputs: base64 is injective, and MD5 is assumed
+		// collision-free on the (short) inputs of one run - without this the solver may equate the
+		// hash of a symbolic payload with the hash of an unrelated constant
 		if len(c.in) != len(in) {
+			if len(c.out) == len(out) {
+				r.addPC(mkNot(bytesEqTerm(c.out, out)))
+			}
 			continue
 		}
 		same := bytesEqTerm(c.in, in)
+		if len(c.out) == len(out) {
+			r.addPC(mkImplies(bytesEqTerm(c.out, out), same))
+		}
 		if same.isFalse() {
 			continue
 		}
